@@ -12,7 +12,12 @@ EXPLANATION = ("A1 start(): on the path where one of the caller's controls has t
                "handle (timeout, options copied) whose controls are - element by element, whatever pushes, pops, truncations, retains the "
                "code applies to the vector, on an owned copy or through a `&mut` into the saved handle - every saved control followed by one "
                "PagedResults{size: self.page_size, cookie: the parsed cookie}, and splices the new stream's handle and receiver into the "
-               "running stream; a failed follow-up is returned as the error; on every path next() leaves the fields a follow-up is built "
+               "running stream; a failed follow-up is returned as the error; all of this for ANY page boundary crossed in one call of next() - the "
+               "page loop is judged as one generic iteration from every state its back edge hands to the loop head (what the locals bound "
+               "before the loop hold there, read off the paths: the entry value, what one trip makes of it, an unknown for the rest), so a "
+               "vector / flag built before the loop and changed inside it is seen with what the previous boundary left in it; a path that "
+               "gives up at the expect() of a saved value it found absent (nothing saved: start() has not run) issues nothing and is the "
+               "same alternative the other paths note at that expect(); on every path next() leaves the fields a follow-up is built "
                "from (saved handle with its controls / timeout / options, base, scope, filter, attrs, page size) as it found them, so page "
                "n+1 is asked for like page 2; the saved controls hold no paging control (start() saves them filtered, only start() and "
                "next() can write the saved handle), which makes a path of next() that finds one infeasible; A3 codec: C19. Not decided: "
@@ -208,7 +213,15 @@ def run(ctx):
     # ------------------------------------------------------------------ A2 next
     N = hirq.Body(f, f.body(PR + 'next'))
     ctx.analysed['bodies'].add(N.path)
-    I = absx.Interp(f, N, unroll=1, for_once=True, combinators=True, places=True, inline=lambda cal: cal.startswith('ldap3::ldap::Ldap::with_') or cal == HANDLE_FN)
+    # next() crosses any number of page boundaries in one call (an empty page that carries a cookie): the page loop is evaluated as ONE
+    # GENERIC ITERATION, from every state its back edge can hand to the loop head - what the locals bound before the loop hold there
+    # is read off the paths (absx.carry_env: the entry value, what one trip around the loop makes of it, and an unknown for the
+    # rest).  Every obligation below is stated about every path from every such state, so it is an inductive argument over the
+    # loop: a vector, flag or handle that is built before the loop and changed inside it is judged with what the previous page
+    # boundary left in it.  (The adapter's saved fields need no such treatment: A2.saved-state-unchanged shows that every path,
+    # the ones that reach the back edge included, leaves them as they were.)
+    I = absx.Interp(f, N, unroll=1, for_once=True, combinators=True, places=True, generic_loops=True, inline=lambda cal: cal.startswith('ldap3::ldap::Ldap::with_') or cal == HANDLE_FN)
+    I.carry_env = True
     outs = I.run(root=inner(N.root))
     seen = set()
     saved = ('variant', ('field', SELF, 'ldap'), 'Some', 0)
@@ -229,6 +242,12 @@ def run(ctx):
             if t and a[0] in ('any', 'position') and a[1] == T0 and a[3] and all(any(tr and is_oid_test(c) for c, tr in cnd) for cnd in a[3]):
                 return True
         return False
+    def missing_template(o):
+        """the path ends in the expect() / unwrap() of a value of the adapter's saved state (the saved handle, its controls, the saved
+        attributes) that the path found absent"""
+        e = o.st.ev[-1] if o.st.ev else None
+        return e is not None and e[0] == 'panic' and e[1].startswith('core::option::Option::<T>::') and e[1].rsplit('::', 1)[-1] in absx.Interp.OPTION_PAYLOADS \
+            and bool(e[2]) and rooted_in(e[2][0], SELF) and e[2][0] != SELF and absx.pc_variant(o.st.pc, lambda v: v == e[2][0], 'None') is True
     judged = []
     request_fields = set()      # the fields of the adapter a follow-up request is built from (read off the follow-up paths)
     def judge_state(o, which):
@@ -311,6 +330,17 @@ def run(ctx):
             continue
         if empty is None:
             ctx.fail('A2.cookie-test', 'cookie', loc(N.root), 'the response cookie is not tested for emptiness'); continue
+        # the iteration this path stands for: the first one of this call, or one that starts with what an earlier page boundary of
+        # the same call left in the locals bound before the page loop
+        later = [e for e in o.st.ev if e[0] == 'loop-carried' and e[3].get('k') in ('Loop', 'While') and e[2] != e[4]]
+        lname = lambda e: (N.defs.get(e[1]) or {}).get('name') or e[1]
+        if o.kind == 'div' and not searches and not removes and missing_template(o):
+            # the follow-up cannot be built because nothing was saved (start() has not run): the adapter gives up there, by the
+            # expect() on the missing value - the alternative every other path notes as `may-panic` at the same expect(), here as
+            # a path of its own because the code asked for the saved value before it needed it
+            seen.add('no-template')
+            judge_state(o, 'no-template')
+            continue
         if len(searches) != 1:
             ctx.fail('A2.follow-up', 'non-empty cookie', loc(N.root), 'a non-empty cookie must issue exactly one follow-up search'); continue
         s = searches[0]
@@ -338,13 +368,22 @@ def run(ctx):
         sterm = ('await', ('call', s[1], s[2], s[3].get('id')))
         sok = next((t for a, t in o.st.pc if a == ('is', sterm, 'Ok')), None)
         which = 'follow-up|ok' if sok is True else 'follow-up|err'
+        inst = which + ''.join('|%s as the previous page boundary left it' % lname(e) if e[2][0] != 'carried' else '|%s as any earlier page boundary left it' % lname(e) for e in later)
+        why = ''
+        if not okv and later:
+            n_paging = len([x for x in segs if x[0] == 'one' and x[1][0] == 'struct' and x[1][1].endswith('paged_results::PagedResults')])
+            held = '; '.join('`%s` (bound before the page loop) arrives at the loop head holding %s' % (lname(e), absx.fmt(e[2])[:110]) for e in later)
+            why = (' - at a page boundary that is not the first one crossed in this call of next() (an empty page that carries a cookie): %s; ' % held) + \
+                  ('the control vector carries the paging control of the previous page boundary over, the request goes out with %d paging controls' % n_paging if n_paging > 1 else
+                   'the request goes out without the paging control' if n_paging == 0 and all(x[0] != 'opaque' for x in segs) else
+                   'what the earlier page boundaries left there goes out with the request')
         used = [s[2], c2] + [h.get(('field', H2, fld), ('unk',)) for fld in ('timeout', 'search_opts')]
         request_fields.update(x[2] for x in absx.leaves(tuple(used), lambda x: x[0] == 'field' and x[1] == SELF))
         seen.add(which)
         judge_state(o, which)
-        ctx.add('A2.follow-up-handle', which, loc(s[3]), okc and okt, 'the follow-up search is not issued on a clone of the saved handle with its timeout and options')
-        ctx.add('A2.follow-up-parameters', which, loc(s[3]), args_ok, 'the follow-up search does not repeat (self.base, self.scope, self.filter, self.attrs) in order: %s' % [absx.fmt(a) for a in s[2][1:]])
-        ctx.add('A2.follow-up-controls', which, loc(s[3]), okv, 'the follow-up controls are not the saved ones plus PagedResults{size: self.page_size, cookie: <cookie just returned>}: %s' % absx.fmt(c2)[:140])
+        ctx.add('A2.follow-up-handle', inst, loc(s[3]), okc and okt, 'the follow-up search is not issued on a clone of the saved handle with its timeout and options')
+        ctx.add('A2.follow-up-parameters', inst, loc(s[3]), args_ok, 'the follow-up search does not repeat (self.base, self.scope, self.filter, self.attrs) in order: %s' % [absx.fmt(a) for a in s[2][1:]])
+        ctx.add('A2.follow-up-controls', inst, loc(s[3]), okv, 'the follow-up controls are not the saved ones plus exactly one PagedResults{size: self.page_size, cookie: <cookie just returned>}: %s%s' % (absx.fmt(c2)[:140], why))
         if sok is True:
             news = ('variant', sterm, 'Ok', 0)
             # ... and with whatever the stream keeps as its record of the Search it is fed by (streamid: the ID its expiry / early finish
